@@ -114,10 +114,14 @@ def gen_config(H: Chooser, tier):
     cfg["history"] = hist
     cfg["batches"] = batches
     # re-presentation of an already evaluated individual (it is registered again by the tracker)
+    cfg["batch_forms"] = [H.pick(["list", "list", "iter", "generator"]) for _ in range(4)]
     cfg["represent"] = H.draw(4) == 3
     cfg["other_problem"] = H.draw(4) == 3
     # F15: one user callback of an extra field raises for one individual (part-way through its row); the caller catches the
     # exception and keeps using the tracker: the rows recorded afterwards must still be complete and their own
+    # an extra field may be given the name of a column that already exists (it then REPLACES that column's content)
+    base_names = ["Phenotype", "Fitness0"] if cfg["fields"] == "default" else ["prog", "last"]
+    cfg["extra_names"] = [(H.pick(base_names) if H.draw(4) == 0 else f"extra{j}") for j in range(cfg["extra"])]
     cfg["callback_fault"] = [H.draw(n), H.draw(n)] if (H.draw(3) == 2 and cfg["extra"] and not cfg["only_best"]) else None
     return cfg
 
@@ -138,6 +142,7 @@ class World:
         self.constructed = False
         self.now_pre = 0
         self.completed = 0  # registrations completed
+        self.presented = 0  # individuals handed to tracker.evaluate
         self.best_agg = None
         self.header = None
         self.problems = []
@@ -160,7 +165,9 @@ class World:
             names = ["Execution Time", "Phenotype"] + [f"Fitness{j}" for j in range(cfg["k"])]
         else:
             names = ["id", "prog", "last"]
-        names += [f"extra{j}" for j in range(cfg["extra"])]
+        for nm in cfg["extra_names"]:
+            if nm not in names:
+                names.append(nm)
         return names
 
     def expected_row(self, ind, clock_value):
@@ -172,9 +179,11 @@ class World:
             row = [t, self.progs[g].text] + [h["comps"][j] for j in range(cfg["k"])]
         else:
             row = [g, self.progs[g].text.upper(), h["comps"][-1]]
-        for j in range(cfg["extra"]):
-            row.append(len(self.progs[g].text) + j if j % 2 == 0 else f"{g}:{self.progs[g].text[:3]}")
-        return row
+        names = ["Execution Time", "Phenotype"] + [f"Fitness{j}" for j in range(cfg["k"])] if cfg["fields"] == "default" else ["id", "prog", "last"]
+        cells = dict(zip(names, row))
+        for j, nm in enumerate(cfg["extra_names"]):
+            cells[nm] = len(self.progs[g].text) + j if j % 2 == 0 else f"{g}:{self.progs[g].text[:3]}"
+        return [cells[nm] for nm in self.expected_fields()]
 
     @staticmethod
     def render(header, rows) -> bytes:
@@ -274,9 +283,9 @@ class World:
 
             for j in range(cfg["extra"]):
                 if j % 2 == 0:
-                    extra[f"extra{j}"] = failing(j, (lambda j: lambda t, i, p: len(str(i.get_phenotype())) + j)(j))
+                    extra[cfg["extra_names"][j]] = failing(j, (lambda j: lambda t, i, p: len(str(i.get_phenotype())) + j)(j))
                 else:
-                    extra[f"extra{j}"] = failing(j, lambda t, i, p: f"{i.genotype}:{str(i.get_phenotype())[:3]}")
+                    extra[cfg["extra_names"][j]] = failing(j, lambda t, i, p: f"{i.genotype}:{str(i.get_phenotype())[:3]}")
         self.header = self.expected_fields()
         with installed_clock(self.clock), installed_fs(fs):
             rec = CSVSearchRecorder(self.path, problem, fields=fields, extra_fields=extra,
@@ -304,9 +313,15 @@ class World:
                 group = [inds[i] for i in batch]
                 if cfg["represent"] and bi % 3 == 2:
                     group.append(inds[batch[0] - 1] if batch[0] > 0 else inds[batch[0]])
-                tracker.evaluate(group)
+                # the tracker accepts any iterable of individuals, one-shot ones included
+                form = cfg["batch_forms"][bi % len(cfg["batch_forms"])]
+                self.presented += len(group)
+                tracker.evaluate(group if form == "list" else (iter(group) if form == "iter" else (x for x in group)))
                 fs.event("between-batches")
                 tracker.get_elapsed_time()
+            if self.completed < self.presented and not self.mismatch:
+                # every individual handed to the tracker is registered, hence has its row
+                self.mismatch = ("at-end", "fewer-registrations-than-individuals-presented")
             if cfg.get("callback_fault"):
                 x, y = (inds[i] for i in cfg["callback_fault"])
                 self.armed = x.genotype
